@@ -69,7 +69,8 @@ def mapping(cb, sb):
     }
 
 
-STRINGS = ['', 'a', 'Notch', 'é', '€', '\U0001F600', 'x' * 127, 'x' * 128,
+STRINGS = ['', 'a', 'Notch', 'é', '€', '\U0001F600', '\ufeffNotch',
+           '\ufeff', 'a\ufeffb', '\x00', ' lead', 'trail ', 'x' * 127, 'x' * 128,
            '{"text":"hello"}', 'localhost', 'minecraft:overworld',
            'é' * 64, '€' * 43, 'mc.example.com']
 
@@ -269,6 +270,15 @@ def run(run):
                         v = values[f]
                         if code == 'nbt':
                             v = pynbt.NBTFile(io=io.BytesIO(v))
+                            if rep % 3 == 1:
+                                # the same compound as it comes out of a larger
+                                # document: a tag that has a name of its own.
+                                # On the network the root tag's name is empty.
+                                v = pynbt.TAG_Compound(
+                                    v.value, name=rng.choice((
+                                        'minecraft:overworld', 'dimension',
+                                        'x')))
+                                run.count('named_root_tags_written')
                         setattr(p, fmap[f], v)
                     buf = PacketBuffer()
                     p.write(buf)
